@@ -289,30 +289,36 @@ def gen_sources():
 def compile_gen_theorems(name, extra_gen=()):
     """Compile build/gen/*.v and coq/gen_theorems/<name>.v against them; returns (ok, output).
     The result is a pure function of the generated tables, the theorem file and the compiled development, so it is cached under
-    a hash of exactly those inputs (the translators themselves run on every check)."""
+    a hash of exactly those inputs (the translators themselves run on every check).  The generated tables are compiled under
+    the lock (once per content, stamp file); the theorem files themselves can be compiled in parallel."""
     g = gen_dir()
     with Lock("gen" + repo_tag()):
         h = hashlib.sha1()
         for f in sorted(os.listdir(g)):
             if f.endswith(".v"):
                 h.update(f.encode()); h.update(open(os.path.join(g, f), "rb").read())
-        h.update(open(os.path.join(COQ, "gen_theorems", name + ".v"), "rb").read())
         for root, _, files in os.walk(os.path.join(COQ, "theories")):
             for f in sorted(files):
                 if f.endswith(".v") and ("Model" in root or "Num" in root or "Proofs" in root):
                     h.update(open(os.path.join(root, f), "rb").read())
+        base = h.hexdigest()
+        h.update(open(os.path.join(COQ, "gen_theorems", name + ".v"), "rb").read())
         cdir = os.path.join(BUILD, "gen_cache"); os.makedirs(cdir, exist_ok=True)
         cfile = os.path.join(cdir, "%s_%s.out" % (name, h.hexdigest()[:20]))
         if os.path.exists(cfile):
             return True, open(cfile).read()
-        for f in sorted(os.listdir(g)):
-            if f.endswith(".v"):
-                p = sh("timeout 600 coqc -Q %s/theories RRTK -Q . Gen %s" % (COQ, f), cwd=g, check=False)
-                if p.returncode != 0:
-                    return False, p.stdout
-        p = sh("timeout 1800 coqc -Q theories RRTK -Q %s Gen -w -all gen_theorems/%s.v" % (g, name), cwd=COQ, check=False, timeout=1900)
-        if p.returncode == 0:
-            open(cfile, "w").write(p.stdout)
+        stamp = os.path.join(g, ".compiled")
+        if not (os.path.exists(stamp) and open(stamp).read() == base):
+            for f in sorted(os.listdir(g)):
+                if f.endswith(".v"):
+                    p = sh("timeout 600 coqc -Q %s/theories RRTK -Q . Gen %s" % (COQ, f), cwd=g, check=False)
+                    if p.returncode != 0:
+                        return False, p.stdout
+            open(stamp, "w").write(base)
+    p = sh("timeout 1800 coqc -Q theories RRTK -Q %s Gen -w -all gen_theorems/%s.v" % (g, name), cwd=COQ, check=False, timeout=1900)
+    if p.returncode == 0:
+        tmp = cfile + ".%d" % os.getpid()
+        open(tmp, "w").write(p.stdout); os.replace(tmp, cfile)
     return p.returncode == 0, p.stdout
 
 
